@@ -59,24 +59,40 @@ BODY_ASSUME = [
     'hybrid route: the frame (assigns) of validate_body_helper itself is checked inside its loops only (loop assigns clauses); outside the loops the function writes *new_p and locals only (by inspection)',
 ]
 
-# The proof is split over the type code seen at the loop head (4 classes; obligation cases.cover in every unit shows that they
+# The proof is split over the type code seen at the loop head (5 classes; obligation cases.cover in every unit shows that they
 # cover all codes).  Measured: the unsplit unit (VERIF_CASE_ID 0, no VERIF_CASE) is green as well but needs 17-32 min (1.6 M
 # variables, one 13-minute UNSAT call); it is kept as role='finder' (not part of any check) for reference.
 CASES = [('fixed', 1, 'VERIF_CLASS_FIXED', 'y b n q i u h x t d'), ('string', 2, 'VERIF_CLASS_STRING', 's o g'),
-         ('array', 3, 'VERIF_CLASS_ARRAY', 'a'), ('nested', 4, 'VERIF_CLASS_NESTED', 'v r e')]
+         ('array', 3, 'VERIF_CLASS_ARRAY', 'a'), ('variant', 4, 'VERIF_CLASS_VARIANT', 'v'), ('struct', 5, 'VERIF_CLASS_STRUCT', 'r e (struct, dict entry)')]
+
+
+def _head_calls():
+    """Syntactic guard for the case split: the covering argument needs exactly one evaluation of
+    _dbus_type_reader_get_current_type (reader) per loop iteration of validate_body_helper (the one in the loop head).
+    The count goes into the harness as -DVERIF_HEAD_CALLS=<n>; anything but 1 is a compile error (tool failure -> undecided)."""
+    import os
+    import re
+    try:
+        src = open(os.path.join(os.environ.get('VERIF_REPO', '/repo'), VAL)).read()
+        i = src.index('\nvalidate_body_helper (')
+        j = src.index('\n}\n', i)
+    except (OSError, ValueError):
+        return -1
+    body = re.sub(r'/\*.*?\*/', ' ', src[i:j], flags=re.S)
+    return len(re.findall(r'_dbus_type_reader_get_current_type\s*\(\s*reader\s*\)', body))
 
 
 def body_unit(suffix, case_id, case_macro, codes):
     u = dict(name='C01.p.body' + ('.' + suffix if suffix else '.all'), props=['C01', 'C10'], kind='P', route='hybrid', tier='thorough', entry='harness',
              tus=[dict(file=VAL, include_as='VERIF_TU', overlay='c01p_body.ovl'), dict(file=BASIC), dict(file=SIG)],
              harness='harness/c01p_body.c', extra_sources=['stubs/c01p_stubs.c', ASSERT],
-             defines=(['VERIF_CASE_ID=%d' % case_id, 'VERIF_CASE=%s' % case_macro] if case_id else []),
+             defines=(['VERIF_CASE_ID=%d' % case_id, 'VERIF_CASE=%s' % case_macro, 'VERIF_HEAD_CALLS=%d' % _head_calls()] if case_id else []),
              replace_calls=READER_CALLS, unwindset_pre=PAD_LOOPS, allow_skip_msg=True,
              timeout=2700, mem_gb=28, expect_s=(400 if case_id else 1500), want_trace=False,
              must_have=['Check invariant after step for loop verif_vbh_1', 'post.range', 'cases.cover', 'precondition of validate_body_helper (recursive call): total_depth + 1'],
              functions=BODY_FUNCS,
              assumptions=BODY_ASSUME + (['case split: this unit covers the executions in which the loop head of validate_body_helper sees one of the type codes %s (or the end of the signature); '
-                                         'the units C01.p.body.fixed/.string/.array/.nested together cover all executions (cases.cover)' % codes] if case_id else []))
+                                         'the units C01.p.body.fixed/.string/.array/.variant/.struct together cover all executions (cases.cover)' % codes] if case_id else []))
     if not case_id:
         u['role'] = 'finder'
     return u
